@@ -1,36 +1,41 @@
 """Property registry: Coq property file, generators it depends on, harness entry point."""
 
 ENG = ["T-engines-np", "T-engines-cs"]
+GLUE = dict(extra_prop_files=["props/Glue.v"])      # the tie of Blocks.v to the regenerated glue (T-blocks)
+GLUE_TRUST = ["translator blocks.py (T6): symbolic execution of the dynamics methods of blocks/*.py into gen/BlocksGen.v; its "
+              "idiom table (element attributes = model accessors, Network look-ups = Graph.v functions, engine methods = "
+              "engine record fields, class = kind) is trusted; Blocks.v is PROVED equal to the regenerated definitions "
+              "(props/Glue.v), so it is no longer tied by sampling only"]
 REALS = ["axioms of Coq's Reals (via Print Assumptions): ClassicalDedekindReals.sig_forall_dec, "
          "ClassicalDedekindReals.sig_not_dec, FunctionalExtensionality.functional_extensionality_dep, "
          "Classical_Prop.classic"]
 
-DYN_TRUST = REALS + ["hand-written element-layer model Blocks.v (tied by the dynamics correspondence: expression trees "
-                     "printed by Coq, evaluated in floats, against NumPy step and CasADi functions)",
+DYN_TRUST = REALS + GLUE_TRUST + ["element-layer model Blocks.v (proved equal to the regenerated glue; besides, the dynamics "
+                     "correspondence: expression trees printed by Coq, evaluated in floats, against NumPy step and CasADi functions)",
                      "wf_graph (node ids unique, edge ends are nodes) is an invariant of the construction model "
                      "(C09) and validb is the validation model (C06)"]
 
 PROPS = {
-    "C01": dict(prop_file="props/C01.v", generators=ENG, module="harness.p_dyn",
+    "C01": dict(GLUE, prop_file="props/C01.v", generators=ENG + ["T-blocks"], module="harness.p_dyn",
                 slice="Blocks.v trees (both generated engines) vs NumPy step and CasADi SX/MX functions",
                 trusted=DYN_TRUST),
-    "C02": dict(prop_file="props/C02.v", generators=ENG, module="harness.p_dyn",
+    "C02": dict(GLUE, prop_file="props/C02.v", generators=ENG + ["T-blocks"], module="harness.p_dyn",
                 slice="Blocks.v trees vs NumPy step and CasADi functions (the values the balance is about)",
                 trusted=DYN_TRUST + ["C02's balances are stated on Spec.v values; model_conserves composes them with C01 for the regenerated engines"]),
-    "C03": dict(prop_file="props/C03.v", generators=ENG, module="harness.p_dyn",
+    "C03": dict(GLUE, prop_file="props/C03.v", generators=ENG + ["T-blocks"], module="harness.p_dyn",
                 slice="Blocks.v trees (np, cs) vs NumPy/SX/MX; ToFunction.v arguments+result trees vs the compiled function",
                 trusted=DYN_TRUST + ["Paramcoq only produces the term network_step_R; it is type-checked by the kernel",
                                      "ToFunction.v (hand-written model of to_function; tied by the compile correspondence)",
                                      "one symbolic type in the model: SX vs MX agreement is dynamic only"]),
-    "C04": dict(prop_file="props/C04.v", generators=ENG + ["T-tables"], module="harness.p_dyn",
+    "C04": dict(GLUE, prop_file="props/C04.v", generators=ENG + ["T-blocks"] + ["T-tables"], module="harness.p_dyn",
                 slice="ToFunction.v arguments (names, symbols) + result trees vs F.name_in/out, sizes, numeric values",
                 trusted=DYN_TRUST + ["ToFunction.v (hand-written model of to_function; tied by the compile correspondence)",
                                      "translator facts.py (the tests on `compact` of the compile helpers -> gen/Tables.v)"]),
-    "C05": dict(prop_file="props/C05.v", generators=ENG, module="harness.p_dyn",
+    "C05": dict(GLUE, prop_file="props/C05.v", generators=ENG + ["T-blocks"], module="harness.p_dyn",
                 slice="ToFunction.v (more_out) result trees vs the compiled function",
                 trusted=["no axioms (Print Assumptions: closed under the global context)",
-                         "Blocks.v / ToFunction.v as models of the Python code (tied by the correspondence)"]),
-    "C16": dict(prop_file="props/C16.v", generators=ENG + ["T-tables"], module="harness.p_dyn",
+                         "Blocks.v / ToFunction.v as models of the Python code (tied by the correspondence)"] + GLUE_TRUST),
+    "C16": dict(GLUE, prop_file="props/C16.v", generators=ENG + ["T-blocks"] + ["T-tables"], module="harness.p_dyn",
                 slice="ToFunction.v with declared parameters vs the compiled function",
                 trusted=DYN_TRUST + ["ToFunction.v (hand-written; tied by the compile correspondence)"]),
     "C06": dict(prop_file="props/C06.v", generators=["T-tables"], module="harness.p_valid",
@@ -46,18 +51,19 @@ PROPS = {
     "C09": dict(prop_file="props/C09.v", generators=[], module="harness.p_hist",
                 slice="Construct.v vs Network on construction histories and the malformed-path stream",
                 trusted=["no axioms", "Construct.v as model of the construction calls on networkx.DiGraph (tied by the history correspondence)"]),
-    "C07": dict(prop_file="props/C07.v", generators=ENG, module="harness.p_dyn",
+    "C07": dict(GLUE, prop_file="props/C07.v", generators=ENG + ["T-blocks"], module="harness.p_dyn",
                 slice="Blocks.v trees vs NumPy/CasADi; every graph the implementation's is_valid accepts is stepped and compiled",
                 trusted=DYN_TRUST + ["PARTIAL: Python exceptions outside the modelled failure points, NumPy/CasADi shape rules and IEEE "
                                      "overflow / rounding are covered by the dynamic runs only (finiteness of a whole step is proved "
                                      "over the exact partial reals NumPR.v)", "ToFunction.v (hand-written; tied by the compile correspondence)"]),
-    "C10": dict(prop_file="props/C10.v", generators=ENG, module="harness.p_dyn",
+    "C10": dict(GLUE, prop_file="props/C10.v", generators=ENG + ["T-blocks"], module="harness.p_dyn",
                 slice="Blocks.v trees vs CasADi functions; Jacobian sparsity vs variable sets of the Spec trees",
                 trusted=DYN_TRUST + ["locality is stated on Spec.v values; model_locality composes it with C01 for the regenerated engines"]),
-    "C11": dict(prop_file="props/C11.v", generators=ENG + ["T-tables"], module="harness.p_dyn",
+    "C11": dict(GLUE, prop_file="props/C11.v", generators=ENG + ["T-blocks"] + ["T-tables"], module="harness.p_dyn",
                 slice="Blocks.v trees under a clamping option set vs NumPy step and CasADi functions",
                 trusted=["FunctionalExtensionality.functional_extensionality_dep (the only axiom; theorems hold for every numeric structure)",
-                         "hand-written element-layer model Blocks.v (tied by the dynamics correspondence)",
+                         "element-layer model Blocks.v (proved equal to the regenerated glue; tied by the dynamics correspondence besides)",
+                         GLUE_TRUST[0],
                          "translator facts.py (option defaults and phases of Network.step -> gen/Tables.v)"]),
     "C12": dict(prop_file="props/C12.v", generators=["T-tables"], module="harness.p_dyn",
                 slice="Lifecycle.v vs the implementation on lifecycle histories; Blocks.v trees vs NumPy/CasADi on re-used objects",
@@ -72,13 +78,13 @@ PROPS = {
                 slice="EngineSel.v vs use/get_current_engine on selection histories; recording engines for every (selected, explicit) pair",
                 trusted=["no axioms", "EngineSel.v as model of engines/core.py::use and the module-level selection",
                          "translator forwarding.py (call sites of blocks/*.py, network.py -> gen/Tables.v) and its classification rule"]),
-    "C14": dict(prop_file="props/C14.v", generators=ENG, module="harness.p_dyn",
+    "C14": dict(GLUE, prop_file="props/C14.v", generators=ENG + ["T-blocks"], module="harness.p_dyn",
                 slice="Blocks.v trees vs NumPy/CasADi on networks rebuilt in shuffled order",
                 trusted=DYN_TRUST + ["names do not occur in Blocks.v; their absence of influence on the implementation is checked dynamically"]),
-    "C17": dict(prop_file="props/C17.v", generators=ENG, module="harness.p_dyn",
+    "C17": dict(GLUE, prop_file="props/C17.v", generators=ENG + ["T-blocks"], module="harness.p_dyn",
                 slice="generated origin primitives (trees) vs both engines; Blocks.v trees vs NumPy/CasADi at corner states",
                 trusted=DYN_TRUST),
-    "C18": dict(prop_file="props/C18.v", generators=ENG, module="harness.p_dyn",
+    "C18": dict(GLUE, prop_file="props/C18.v", generators=ENG + ["T-blocks"], module="harness.p_dyn",
                 slice="generated primitives (trees) vs both engines; Blocks.v trees vs NumPy/CasADi; paired controlled/plain networks",
                 trusted=DYN_TRUST + ["literal IEEE inf controls are exercised dynamically only"]),
     "C15": dict(prop_file="props/C15.v", generators=ENG, module="harness.p_prims",
